@@ -158,6 +158,54 @@ def grid_designs():
                     blk(d, "r1", (), [as_(View(o2), add(rd(View(o)), lit(8, 1), 8))])
                     d.family = "grid"
                     out.append(d)
+    out += index_designs(k)
+    return out
+
+
+def index_designs(k0=0):
+    """K-grid, variable-index cells: a list of wires read as arr[sel] and arr[sel][lo:hi] (the index in
+    an inner position of the reference), with the index and the elements each produced by their own
+    block or net, so that the only thing ordering producer and consumer is the dependency through the
+    *index* resp. through an *element*."""
+    out = []
+    k = k0
+    for n in (2, 4):
+        for sl in (None, (0, 4), (2, 6), (7, 8)):
+            for sel_via in ("blk", "net", "slice"):
+                for el_via in ("blk", "net"):
+                    d = _mk("G%d" % k)
+                    k += 1
+                    iw = {2: 1, 4: 2}[n]
+                    a = d.add_sig((), "a", "in", 8)
+                    b = d.add_sig((), "b", "in", 8)
+                    si = d.add_sig((), "si", "in", 4)
+                    arr = [d.add_sig((), "arr%d" % j, "wire", 8, arr=("arr", j, n)) for j in range(n)]
+                    o = d.add_sig((), "o", "out", 8)
+                    o2 = d.add_sig((), "o2", "out", 8)
+                    if sel_via == "slice":       # the index is a slice of a wider wire written by a block
+                        selw = d.add_sig((), "selw", "wire", 4)
+                        blk(d, "ws", (), [as_(View(selw), xor(rd(View(si)), rd(View(b, (), (0, 4))), 4))])
+                        selv = View(selw, (), (1, 1 + iw))
+                    else:
+                        sel = d.add_sig((), "sel", "wire", iw)
+                        selv = View(sel)
+                        if sel_via == "blk":
+                            blk(d, "ws", (), [as_(selv, xor(rd(View(si, (), (0, iw))), rd(View(b, (), (0, iw))), iw))])
+                        else:
+                            conn(d, View(si, (), (0, iw)), selv, ())
+                    for j in range(n):
+                        if el_via == "net" and j == 0:
+                            conn(d, View(a), View(arr[j]), ())
+                        else:
+                            blk(d, "we%d" % j, (), [as_(View(arr[j]), add(rd(View(a)), add(rd(View(b)), lit(8, 37 * j + 1), 8), 8))])
+                    e = {"k": "idx", "arr": arr, "i": rd(selv)}
+                    if sl:
+                        e["sl"] = sl
+                        e = {"k": "zext", "a": e, "w": 8} if sl[1] - sl[0] < 8 else e
+                    blk(d, "r0", (), [as_(View(o), e)])
+                    blk(d, "r1", (), [as_(View(o2), add(rd(View(o)), lit(8, 1), 8))])
+                    d.family = "grid"
+                    out.append(d)
     return out
 
 
